@@ -133,9 +133,14 @@ class CallMixin:
         from .absint import Ob
         from .report import norm
         fi = self.fi
-        if not ok and self.cfg.exempt_ops and (fi.qualname, kind, norm(unparse(node))) in self.cfg.exempt_ops:
-            ok = True
-            by = "exemption table"
+        if not ok and self.cfg.exempt_ops:
+            from .report import shape
+            scope = fi.cls.qualname if fi.cls is not None else fi.module.name
+            shapes = getattr(self.cfg, "exempt_op_shapes", ())
+            sh = shape(unparse(node))
+            if (fi.qualname, kind, norm(unparse(node))) in self.cfg.exempt_ops or (scope, kind, sh) in shapes or (fi.qualname, kind, sh) in shapes:
+                ok = True
+                by = "exemption table"
         key = (self.ctx, fi.qualname, id(node), kind)
         self.obs[key] = Ob(func=fi.qualname, node=node, kind=kind, exc=exc, ok=ok, message=message, by=by,
                            ctx=self.ctx, chain=tuple(self.chain), status=status)
